@@ -164,9 +164,12 @@ def replay(ob):
         INFO0, WY0, NZ0 = tabvc.load_tables()
         for lf in [l for l in L[:-1] if WY0[sg][l].get("variables")][:3]:
             extras.append([(lf, 29, P1), (lf, 29, P2)])
-        for extra in extras:
+        # every occupancy as given, and the single-letter ones also as an anisotropic supercell (a cell whose lattice has lost point operations)
+        freeL = [l for l in L[:-1] if WY0[sg][l].get("variables")][:3]
+        cases = [(e, None) for e in extras] + [([(L[0], 11, None), (l, 17, P1)], rp) for l in freeL for rp in ((2, 1, 1), (1, 2, 3))]
+        for extra, repeat in cases:
             try:
-                at = tr.pinned_probe(sg, extra, npin=1)
+                at = tr.pinned_probe(sg, extra, npin=1) if repeat is None else tr.probe(sg, extra).repeat(repeat)
                 if len(at) > 220:
                     continue
                 a = tr.analyze(at)
